@@ -19,6 +19,7 @@ import os
 import pickle
 import random
 import re
+import shutil
 import subprocess
 import sys
 import threading
@@ -68,6 +69,20 @@ def same_value(a, b):
     if ta in (float, int, str, bool) and tb in (float, int, str, bool):
         return ta is tb and (a == b or (a != a and b != b))
     return canon(a) == canon(b)
+
+
+class _Frozen:
+    """canonical contents of a mutable parameter value"""
+    __slots__ = ("c",)
+
+    def __init__(self, c):
+        self.c = c
+
+
+def _frozen(v):
+    if v is None or isinstance(v, (bool, int, float, str, type)):
+        return v
+    return _Frozen(canon(v))
 
 
 def shape_of(v):
@@ -223,6 +238,11 @@ def _profiles():
     }
 
 
+EXTRAS = {
+    "cmp": (("detailedNDens", [1.0e-3, 2.0e-3, 3.0e-3]), ("pinNDens", [[1.0e-3, 2.0e-3]])),
+    "blk": (("detailedNDens", [1.0e-3, 2.0e-3]), ("mgFlux", [1.0e13, 2.0e13]), ("adjMgFlux", [0.5, 0.25])),
+    "asm": (("detailedNDens", [5.0e-3]),),
+}
 PITCH = [1.0, 2.0, 3.0]  # hex pitch per grid value (block)
 TOP = [10.0, 20.0, 30.0]  # top axial bound per grid value (assembly)
 
@@ -318,6 +338,12 @@ class MiniAdapter:
                 w["t0"][i] = o.p.temperatureInC
             for p in ("p", "q"):
                 self.prof[c][p].assign(w, i, o, 0)
+            # array-valued parameters that are NOT modelled individually (they are part of `rest`): detailed and
+            # pin-wise number densities, fluxes -- what depletion / flux solvers leave on the objects
+            mine = {self.prof[c]["p"].name, self.prof[c]["q"].name}
+            for nm, arr in EXTRAS[c]:
+                if nm not in mine:
+                    setattr(o.p, nm, self.np.array(arr))
             # class-level state of the parameter system is global: start every world from the same flags
             if type(o.p) not in seen:
                 seen.add(type(o.p))
@@ -338,7 +364,9 @@ class MiniAdapter:
         skip = {"_p_" + self.prof[c]["p"].name, "_p_" + self.prof[c]["q"].name, "_p_serialNum"}
         names = [pd.fieldName for pd in o.p.paramDefs if pd.fieldName not in skip]
         d = o.p.__dict__
-        return names, [d.get(n, UNSET) for n in names]
+        # immutable values are kept as they are; arrays / lists / dicts as their CONTENTS (a mutator may change them
+        # in place, so identity says nothing)
+        return names, [_frozen(d.get(n, UNSET)) for n in names]
 
     # -- actions ---------------------------------------------------------------------------------------
     def keepset(self, w, keep):
@@ -388,6 +416,8 @@ class MiniAdapter:
                 from armi.reactor import reactorParameters
 
                 reactorParameters.makeParametersReadOnly(O[a["r"]])
+            elif n == "CallRO":
+                call_mutator(O[a["o"]], w["cls"][a["o"]], a["m"])
             else:
                 raise tlc.MachineryError("unknown action " + n)
         except tlc.MachineryError:
@@ -412,7 +442,11 @@ class MiniAdapter:
             r = 0
             for nm, b in zip(names, base):
                 x = d.get(nm, UNSET)
-                if x is not b and not same_value(x, b):
+                if type(b) is _Frozen:
+                    if canon(x) != b.c:
+                        r = "%s: built with %s, now %r" % (nm[3:], _short(b.c), _short(x))
+                        break
+                elif x is not b and not same_value(x, b):
                     r = "%s: built with %r, now %r" % (nm[3:], _short(b), _short(x))
                     break
             rest.append(r)
@@ -440,6 +474,62 @@ class MiniAdapter:
     def label(self, w, oid, p):
         c = w["cls"].get(oid, "?")
         return self.prof[c][p].label(c) if c in self.prof else c
+
+
+def _first_nuclide(o):
+    """a nuclide that really is in the object (first component that has number densities)"""
+    for c in [o] + list(o.iterChildren(deep=True)):
+        nd = c.p.__dict__.get("_p_numberDensities")
+        if isinstance(nd, dict) and nd:
+            return sorted(nd)[0]
+    raise tlc.MachineryError("no nuclides below %r" % (o,))
+
+
+def call_mutator(o, c, m):
+    """the read-only family: public mutators that route through parameters, with valid arguments"""
+    if m == "changeNDensByFactor":
+        o.changeNDensByFactor(2.0)
+    elif m == "setNumberDensity":
+        o.setNumberDensity(_first_nuclide(o), 0.0123)
+    elif m == "setNumberDensities":
+        o.setNumberDensities({_first_nuclide(o): 0.0123})
+    elif m == "updateNumberDensities":
+        o.updateNumberDensities({_first_nuclide(o): 0.0123})
+    elif m == "clearNumberDensities":
+        o.clearNumberDensities()
+    elif m == "setTemperature":
+        o.setTemperature(712.0)
+    elif m == "setDimension":
+        o.setDimension("od", 0.91)
+    elif m == "setMass":
+        o.setMass(_first_nuclide(o), 1.5)
+    elif m == "addMass":
+        o.addMass(_first_nuclide(o), 0.5)
+    elif m == "setMasses":
+        o.setMasses({_first_nuclide(o): 1.5})
+    elif m == "setType":
+        o.setType("clad" if c == "cmp" else "fuel")
+    elif m == "setHeight":
+        o.setHeight(12.5)
+    elif m == "adjustUEnrich":
+        o.adjustUEnrich(0.2)
+    elif m == "calculateZCoords":
+        o.calculateZCoords()
+    elif m == "reestablishBlockOrder":
+        o.reestablishBlockOrder()
+    elif m == "p.update":
+        o.p.update({"flags": o.p.flags})
+    elif m == "p[]=":
+        o.p["flags"] = o.p.flags
+    elif m == "del p[]":
+        del o.p[RO_DELETE[c]]
+    elif m == "copyParamsFrom":
+        o.copyParamsFrom(o)
+    else:
+        raise tlc.MachineryError("unknown mutator " + m)
+
+
+RO_DELETE = {"cmp": "mult", "blk": "power", "asm": "chargeTime", "core": "keff", "r": "cycleLength", "sfp": "flags"}
 
 
 def _short(x):
@@ -513,6 +603,10 @@ def anc_of(par, x):
 def make_key(act, d, parent, behaviour, labeller, reshaped, err_exp, err_seen):
     """stable identifier of the failing call site / input class"""
     n = act["n"]
+    if n == "CallRO":
+        # read-only family: the failing call site is the mutator
+        what = ("err=%s" % (err_seen or "none")) if err_exp != err_seen else d.split(":")[0].split(".")[1].split("[")[0]
+        return "CallRO:%s:%s" % (what, act.get("m", "?"))
     if err_exp != err_seen:
         cls = "kept-array-reshaped" if (n == "Exit" and reshaped) else "other"
         return "%s:err=%s:%s" % (n, err_seen or "none", cls)
@@ -853,7 +947,21 @@ RBIND = {
     "cmp": {"s": "temperatureInC", "a": "pinPercentBu", "d": "numberDensities", "n": "customIsotopicsName"},
 }
 RPAR = ("s", "a", "d", "n")
-NMAX = 40  # N of RetainState_trace.cfg
+# read-only family on the reactor (CallRO) and side-effecting mutators on writeable objects (Havoc)
+RO_CALLS = {
+    "r": ["changeNDensByFactor", "clearNumberDensities", "p.update", "p[]=", "del p[]", "copyParamsFrom"],
+    "core": ["changeNDensByFactor", "clearNumberDensities", "setNumberDensity", "p.update", "del p[]", "copyParamsFrom"],
+    "sfp": ["p.update", "p[]=", "copyParamsFrom"],
+    "asm": ["changeNDensByFactor", "setNumberDensity", "clearNumberDensities", "setType", "setMass", "calculateZCoords",
+            "del p[]", "copyParamsFrom"],
+    "blk": ["changeNDensByFactor", "setNumberDensity", "setNumberDensities", "updateNumberDensities", "clearNumberDensities",
+            "setMass", "addMass", "setHeight", "setType", "adjustUEnrich", "del p[]", "copyParamsFrom"],
+    "cmp": ["changeNDensByFactor", "setNumberDensities", "updateNumberDensities", "clearNumberDensities", "setTemperature",
+            "setDimension", "setMass", "addMass", "setMasses", "setType", "p.update", "p[]=", "del p[]", "copyParamsFrom"],
+}
+RW_CALLS = {"cmp": ["changeNDensByFactor", "setMass", "addMass", "clearNumberDensities", "updateNumberDensities"],
+            "blk": ["changeNDensByFactor", "setNumberDensity", "clearNumberDensities"]}
+NMAX = 64  # N of RetainState_trace.cfg
 _TEMPLATE = None
 
 
@@ -876,11 +984,17 @@ class ReactorRecorder:
         if _TEMPLATE is None:
             from armi.reactor.tests.test_reactors import loadTestReactor
 
-            _o, r = loadTestReactor(inputFileName="smallestTestReactor/armiRunSmallest.yaml")
-            for c in r.iterChildren(deep=True, predicate=lambda x: isinstance(x, component.Component)):
+            o_, r = loadTestReactor(inputFileName="smallestTestReactor/armiRunSmallest.yaml")
+            for k, c in enumerate(r.iterChildren(deep=True, predicate=lambda x: isinstance(x, component.Component))):
                 c.getVolume()  # lazily computed parameter (Database._setParamsBeforeFreezing does the same)
-            _TEMPLATE = r
-        self.template = _TEMPLATE
+                if k % 2 == 0:  # what depletion leaves behind: detailed / pin-wise number densities as arrays
+                    c.p.detailedNDens = np.array([1.0e-3, 2.0e-3, 3.0e-3])
+                    c.p.pinNDens = np.array([[1.0e-3, 2.0e-3]])
+            for b in r.core.iterChildren(deep=True, predicate=lambda x: isinstance(x, blocks.Block)):
+                b.p.mgFlux = np.array([1.0e13, 2.0e13])
+                b.p.detailedNDens = np.array([1.0e-3, 2.0e-3])
+            _TEMPLATE = (r, o_.cs)
+        self.template, self.cs = _TEMPLATE
         # the families must really share one Parameter object per modelled parameter
         objs = [self.template] + list(self.template.iterChildren(deep=True))
         pds = {}
@@ -908,10 +1022,65 @@ class ReactorRecorder:
         r = copy.deepcopy(self.template)
         objs = [r] + list(r.iterChildren(deep=True))
         w = {"obj": {i + 1: o for i, o in enumerate(objs)}, "cls": {}, "stack": [], "err": "", "vid": {}, "rid": {},
-             "gid": {}, "prof": "reactor", "shapes": []}
+             "gid": {}, "prof": "reactor", "shapes": [], "db": None, "dbwalk": None, "dbn": 0}
         for i, o in w["obj"].items():
             w["cls"][i] = self.family(o)
         return w
+
+    # -- database -------------------------------------------------------------------------------------
+    def db_write(self, w, rid):
+        """Database.writeToDB of the reactor with id rid (a new state point every time); remembers the walk order"""
+        import contextlib
+        import io
+
+        from armi.bookkeeping.db.databaseInterface import DatabaseInterface
+
+        r = w["obj"][rid]
+        with contextlib.redirect_stdout(io.StringIO()):
+            if w["db"] is None:
+                d = common.workdir("c16db")
+                dbi = DatabaseInterface(r, self.cs)
+                dbi.initDB(fName=os.path.join(d, "verif.h5"))
+                w["db"] = dbi.database
+            w["dbn"] += 1
+            w["db"].writeToDB(r, statePointName="w%d" % w["dbn"])
+        ident = {id(v): k for k, v in w["obj"].items()}
+        w["dbwalk"] = [ident[id(x)] for x in [r] + list(r.iterChildren(deep=True))]
+
+    def db_load(self, w, readOnly):
+        """Database.load / loadReadOnly of the last state point; returns [[source id, new id], ..] in the
+        specification's order (sources ascending, lowest free ids)"""
+        import contextlib
+        import io
+
+        with contextlib.redirect_stdout(io.StringIO()):
+            if readOnly:
+                r2 = w["db"].loadReadOnly(0, 0, statePointName="w%d" % w["dbn"])
+            else:
+                r2 = w["db"].load(0, 0, statePointName="w%d" % w["dbn"], allowMissing=True)
+        news = [r2] + list(r2.iterChildren(deep=True))
+        if len(news) != len(w["dbwalk"]):
+            raise AssertionError("loaded reactor has %d objects, %d were written" % (len(news), len(w["dbwalk"])))
+        n0 = len(w["obj"])
+        to = {s_: n0 + 1 + k for k, s_ in enumerate(sorted(w["dbwalk"]))}
+        for s_, nn in zip(w["dbwalk"], news):
+            if self.family(nn) != w["cls"][s_]:
+                raise AssertionError("loaded object %r is not a %s" % (nn, w["cls"][s_]))
+            w["obj"][to[s_]] = nn
+            w["cls"][to[s_]] = w["cls"][s_]
+        return [[s_, to[s_]] for s_ in sorted(w["dbwalk"])]
+
+    def dispose(self, w):
+        if w.get("db") is not None:
+            try:
+                w["db"].close()
+            except Exception:
+                pass
+            try:
+                shutil.rmtree(os.path.dirname(w["db"].fileName), ignore_errors=True)
+            except Exception:
+                pass
+            w["db"] = None
 
     def vid(self, w, table, c):
         t = w[table]
@@ -977,12 +1146,13 @@ class ReactorRecorder:
         return [i] + [ident[id(c)] for c in o.iterChildren(deep=True)]
 
     # -- one random event ------------------------------------------------------------------------------
-    def step(self, w, rng):
+    def step(self, w, rng, force=None):
         """returns the event {"a":..,"post":..,"x":..} or None if the drawn action is not applicable"""
         O = w["obj"]
         live = sorted(O)
-        kind = rng.choice(["Enter"] * 4 + ["Exit"] * 4 + ["Assign"] * 7 + ["Ndens"] * 3 + ["Temp"] * 2 + ["SetCache"] * 3
-                          + ["SetGrid"] * 3 + ["DeepCopy", "Pickle", "MakeReadOnly"] + ["RO"] * 3)
+        kind = force["kind"] if force else rng.choice(
+            ["Enter"] * 4 + ["Exit"] * 4 + ["Assign"] * 7 + ["Ndens"] * 3 + ["Temp"] * 2 + ["Mutate"] * 2 + ["SetCache"] * 3
+            + ["SetGrid"] * 3 + ["DeepCopy", "DeepCopy", "Pickle", "MakeReadOnly", "WriteDb", "LoadDb", "LoadDbRO"] + ["RO"] * 4)
         writable = [i for i in live if not O[i].p.readOnly]
         frozen = [i for i in live if O[i].p.readOnly]
         a, x = None, {}
@@ -1069,8 +1239,33 @@ class ReactorRecorder:
                 o = rng.choice(cands)
                 a = {"n": "SetGrid", "o": o, "g": None}
                 self.change_grid(O[o], w["cls"][o], rng)
+            elif kind == "WriteDb":
+                roots = [i for i in live if w["cls"][i] == "r" and O[i].parent is None]
+                if not roots or (w["dbn"] >= 3 and not force):
+                    return None
+                r = force.get("o", roots[0]) if force else rng.choice(roots)
+                a = {"n": "WriteDb", "r": r}
+                self.db_write(w, r)
+            elif kind in ("LoadDb", "LoadDbRO"):
+                if w["db"] is None or len(live) + len(w["dbwalk"]) > NMAX:
+                    return None
+                a = {"n": kind, "ids": None}
+                a["ids"] = self.db_load(w, kind == "LoadDbRO")
+            elif kind == "Mutate":
+                cands = [i for i in writable if w["cls"][i] in ("cmp", "blk") and O[i].parent is not None]
+                if not cands:
+                    return None
+                o = rng.choice(cands)
+                f = w["cls"][o]
+                fam = self.block_family(w, o) if f == "cmp" else sorted(set(self.subtree(w, o)))
+                if any(O[j].p.readOnly for j in fam):
+                    return None
+                m = rng.choice(RW_CALLS[f])
+                a = {"n": "Havoc", "o": o, "touched": fam, "call": m}
+                call_mutator(O[o], f, m)
             elif kind in ("DeepCopy", "Pickle"):
-                o = rng.choice(live if rng.random() < 0.3 else [i for i in live if w["cls"][i] in ("asm", "blk", "cmp")])
+                o = force["o"] if force else rng.choice(
+                    live if rng.random() < 0.3 else [i for i in live if w["cls"][i] in ("asm", "blk", "cmp")])
                 src = sorted(self.subtree(w, o))
                 if len(live) + len(src) > NMAX:
                     return None
@@ -1102,8 +1297,12 @@ class ReactorRecorder:
                     return None
                 o = rng.choice(cands)
                 f = w["cls"][o]
-                how = rng.choice(["set", "set", "api"]) if f == "cmp" else "set"
-                if how == "set":
+                how = rng.choice(["set", "call", "call", "api"]) if f == "cmp" else rng.choice(["set", "call"])
+                if how == "call":
+                    m = rng.choice(RO_CALLS[f])
+                    a = {"n": "CallRO", "o": o, "m": m}
+                    call_mutator(O[o], f, m)
+                elif how == "set":
                     p = rng.choice(RPAR)
                     a = {"n": "AssignRO", "o": o, "p": p, "v": 0}
                     setattr(O[o].p, RBIND[f][p], self.value(rng, p, f))
@@ -1151,20 +1350,26 @@ class ReactorRecorder:
         else:
             g.changePitch(rng.choice([1.0, 2.0, 3.0]), rng.choice([1.0, 2.5]))
 
-    def record(self, tid, nev, rng):
+    def record(self, tid, nev, rng, directed=False):
         w = self.new_world()
         p0 = self.project(w)
         init = {k: p0[k] for k in ("parent", "cls", "val", "rest", "cass", "grid")}
         ev = []
         tries = 0
-        while len(ev) < nev and tries < nev * 6:
-            tries += 1
-            e = self.step(w, rng)
-            if e is None:
-                continue
-            ev.append(e)
-            if e["post"]["err"] and e["a"]["n"] not in ("AssignRO",):
-                break  # an operation that must succeed raised: the objects are in an undefined state
+        # every fourth history starts with: write the reactor, make objects, load the snapshot, make more objects
+        script = [{"kind": "WriteDb", "o": 1}, {"kind": "DeepCopy", "o": 4}, {"kind": "DeepCopy", "o": 5},
+                  {"kind": rng.choice(["LoadDb", "LoadDbRO"])}, {"kind": "DeepCopy", "o": 4}] if directed else []
+        try:
+            while len(ev) < nev and tries < nev * 6:
+                tries += 1
+                e = self.step(w, rng, force=script.pop(0) if script else None)
+                if e is None:
+                    continue
+                ev.append(e)
+                if e["post"]["err"] and e["a"]["n"] not in ("AssignRO", "CallRO"):
+                    break  # an operation that must succeed raised: the objects are in an undefined state
+        finally:
+            self.dispose(w)
         return {"id": tid, "init": init, "ev": ev}
 
 
@@ -1175,7 +1380,7 @@ def traces_collect(thorough, seed, recorder=None, ntraces=None):
     nt = ntraces or (200 if thorough else 40)
     nev = 60 if thorough else 40
     t0 = time.time()
-    traces = [rec.record("t%d" % t, nev, rng) for t in range(nt)]
+    traces = [rec.record("t%d" % t, nev, rng, directed=(t % 4 == 0)) for t in range(nt)]
     t_rec = time.time() - t0
     bad, stats = tracecheck.validate("RetainState_trace", "RetainState_trace.cfg", MODDIR, traces, timeout=3000)
     res = stats["tlc"]
@@ -1307,7 +1512,7 @@ def replay(payload):
         want = payload["trace_id"]
         tr = None
         for t in range(200 if thorough else 40):
-            tr = rec.record("t%d" % t, 60 if thorough else 40, rng)
+            tr = rec.record("t%d" % t, 60 if thorough else 40, rng, directed=(t % 4 == 0))
             if tr["id"] == want:
                 break
         bad, stats = tracecheck.validate("RetainState_trace", "RetainState_trace.cfg", MODDIR, [tr])
